@@ -23,7 +23,8 @@ func main() {
 	r := hx.NewRng(run.Seed).Fork() // Fork: seeds n and n+1 would otherwise be the same stream shifted by one draw
 	meshgen.FixedCases(run)
 	meshgen.FixedGens(run)
-	meshgen.Tiles(run, r.Fork(), run.Tier == "thorough") // sizes past internal block limits: every local operation once
+	meshgen.Tiles(run, r.Fork(), run.Tier == "thorough")     // ladder 2^10+1 .. 2^15+1 (thorough 2^17+1): every local operation at three rungs
+	meshgen.GenLadder(run, r.Fork(), run.Tier == "thorough") // the generators at vertex counts on the same ladder
 	// one third generator cases, two thirds operation histories
 	ngen := run.N / 3
 	if run.Tier != "thorough" && ngen > 260 {
